@@ -33,7 +33,12 @@ type serverConn struct {
 	parser   parser.Parser
 
 	closeOnce sync.Once
-	debug     Debugger
+	// Set (together with the reason) as soon as the connection is closed.
+	closed      bool
+	closeReason Reason
+	closedMu    sync.Mutex
+
+	debug Debugger
 }
 
 func newServerConn(
@@ -149,7 +154,7 @@ func (c *serverConn) connect(header *parser.PacketHeader, decode parser.Decode) 
 
 	// Namespace.doConnect registers the socket with this connection
 	// before the CONNECT reply is sent.
-	_, err = nsp.add(c, auth)
+	socket, err := nsp.add(c, auth)
 	if err != nil {
 		c.debug.Log("Connection to namespace", nsp.name, "was denied")
 		mErr := &middlewareError{}
@@ -160,6 +165,20 @@ func (c *serverConn) connect(header *parser.PacketHeader, decode parser.Decode) 
 		}
 		return
 	}
+
+	// The connection might have been closed while the socket was being added
+	// to the namespace (for example, while the middlewares were running).
+	// In that case `onClose` didn't see this socket (or saw it before it was
+	// connected), so we close it here.
+	if closed, reason := c.isClosed(); closed {
+		socket.onClose(reason)
+	}
+}
+
+func (c *serverConn) isClosed() (closed bool, reason Reason) {
+	c.closedMu.Lock()
+	defer c.closedMu.Unlock()
+	return c.closed, c.closeReason
 }
 
 func (c *serverConn) connectError(message any, nsp string) {
@@ -234,6 +253,11 @@ func (c *serverConn) onClose(reason Reason, err error) {
 	// We don't want it to close more than once,
 	// so we use sync.Once to avoid running onClose more than once.
 	c.closeOnce.Do(func() {
+		c.closedMu.Lock()
+		c.closed = true
+		c.closeReason = reason
+		c.closedMu.Unlock()
+
 		sockets := c.sockets.getAndRemoveAll()
 		for _, socket := range sockets {
 			socket.onClose(reason)
